@@ -226,6 +226,19 @@ pub mod verif_hooks {
     out.join(" ")
   }
 
+  /// The document `create_doc` builds for one expression (what `pretty_print_expression` hands to
+  /// the layout engine), in primitive nodes.
+  pub fn expression_doc(
+    heap: &samlang_heap::Heap,
+    comment_store: &samlang_ast::source::CommentStore,
+    expression: &samlang_ast::source::expr::E<()>,
+  ) -> String {
+    let d = super::source_printer::expression_to_document(heap, comment_store, expression);
+    let mut out = Vec::new();
+    dump_into(&d, &mut out);
+    out.join(" ")
+  }
+
   /// `Document::flatten`, `None` for documents with a hard line.
   pub fn flatten(doc: &str) -> Result<Option<String>, String> {
     let d = parse_all(doc)?;
